@@ -7,7 +7,9 @@
 (*   reset(kind, trk, hard, soft, credit, blocking)   a new container;        *)
 (*         blocking is a record iterator name -> BOOLEAN                      *)
 (*   call(id, op, arg, hint)   op: "next" (arg = iterator), "add" (arg = the  *)
-(*         value), "popn" / "popf", "close", "badd" (arg = the value)         *)
+(*         value), "fadd" (Deque Force push at the far end: evicts at the     *)
+(*         near end when the deque is at capacity - a removal), "popn" /      *)
+(*         "popf", "close", "badd" (arg = the value)                          *)
 (*   ret(id, res)     cancel(id)     quiescent(blocked = ids still pending)   *)
 (*                                                                            *)
 (* An operation is pending between call and ret; the silent step Lin applies  *)
@@ -42,7 +44,7 @@ More == l <= Len(Trace)
 
 Init == l = 1 /\ c = CNew("queue", NoLimit) /\ its = <<>> /\ pend = {} /\ canc = {}
 
-MkTracker(e) == IF e.trk = "nolimit" THEN NoLimit ELSE Quota(e.hard, e.soft, e.credit)
+MkTracker(e) == IF e.trk = "nolimit" THEN NoLimit ELSE IF e.trk = "hard" THEN Hard(e.hard) ELSE Quota(e.hard, e.soft, e.credit)
 
 Reset == /\ More /\ Ev.ev = "reset"
          /\ c' = CNew(Ev.kind, MkTracker(Ev))
@@ -63,15 +65,16 @@ Lin == \E p \in pend :
                /\ p.hint \in Results(c, its[p.arg], p.id \in canc)
                /\ its' = [its EXCEPT ![p.arg] = AfterNext(c, @, p.hint)]
                /\ Fix(p, p.hint) /\ UNCHANGED c
-            \/ /\ p.op \in {"add", "popn", "popf", "close", "badd"}
+            \/ /\ p.op \in {"add", "fadd", "popn", "popf", "close", "badd"}
                /\ \E o \in (CASE p.op = "add" -> AAdd(c, p.arg)
+                              [] p.op = "fadd" -> AForce(c, p.arg)
                               [] p.op = "popn" -> APop(c, "n")
                               [] p.op = "popf" -> APop(c, "f")
                               [] p.op = "close" -> AClose(c)
                               [] p.op = "badd" -> ABAdd(c, p.arg, p.id \in canc)) :
                     /\ o.res = p.hint
                     /\ c' = o.c /\ Fix(p, o.res)
-                    /\ its' = IF p.op \in {"popn", "popf"} /\ o.res # "none"
+                    /\ its' = IF (p.op \in {"popn", "popf"} /\ o.res # "none") \/ (p.op = "fadd" /\ Evicts(c))
                                 THEN [i \in DOMAIN its |-> Taint(its[i])] ELSE its
          /\ UNCHANGED <<l, canc>>
 
